@@ -34,6 +34,7 @@ func checkC12(c *Ctx, r *Report) {
 	udpSessionWrite(c, r, "C12.R2.udp-session-write")
 	matchingIdEndsWait(c, r, "C12.R3.matching-id-ends-wait")
 	round12(c, r, "C12")
+	round13(c, r, "C12")
 }
 
 func isConnRead(call *ssa.Call) bool {
